@@ -92,6 +92,25 @@ Lemma subquery_internal :
   r_says subquery_remote = Some true.
 Proof. vm_compute. repeat split. Qed.
 
+(* a transport that computes Internal() by the mock writer's rule (the DoH / DoH3 writer) cannot
+   widen the internal class: the chain's writer says internal for it exactly on the signature *)
+Lemma mock_rule_is_sentinel r : transport_says r = sentinel_remote r.
+Proof.
+  unfold transport_says, sentinel_remote, ip_is_sentinel.
+  change mock_sentinel_v4 with sentinel_v4. reflexivity.
+Qed.
+
+Lemma mock_writer_adds_nothing r :
+  r_says r = Some (transport_says r) -> writer_internal r = sentinel_remote r.
+Proof.
+  intros H. unfold writer_internal. destruct (sentinel_remote r) eqn:E; [reflexivity|].
+  rewrite H. cbn. rewrite (mock_rule_is_sentinel r). exact E.
+Qed.
+
+Lemma mock_text_pinned :
+  mock_arms = [bytes_of "UDPAddr"; bytes_of "TCPAddr"].
+Proof. vm_compute. reflexivity. Qed.
+
 (* access list on every transport: exactly the specification — a genuine sub-query passes,
    every client is judged by containment of the peer address, a transport without a usable peer
    address is dropped *)
